@@ -25,10 +25,22 @@ func zzViews(s *Store[uint64, uint64], label string) {
 }
 
 func zzClientOp(s *Store[uint64, uint64], capv int64, tag *uint64) {
-	op := vfChoose("op", 4)
+	menu := 4
+	if vfConfig("TTL", 0) == 1 {
+		menu = 6 // also: Set k1 with a TTL, and "time passes and the maintenance tick fires"
+	}
+	op := vfChoose("op", menu)
 	*tag++
 	v := *tag
 	switch op {
+	case 4:
+		c := vfI64("cost")
+		vfAssume(c >= 1)
+		vfAssume(c <= capv)
+		s.Set(1, v, c, time.Duration(1<<29))
+	case 5:
+		vfClockAdvance(1 << 31)
+		vfFireTickers()
 	case 0, 1:
 		c := vfI64("cost")
 		vfAssume(c >= 1)
@@ -66,9 +78,12 @@ func ZZ_C02_Program() {
 	<-done
 	vfSetPreemptions(0)
 	s.Wait()
+	vfQuiesce()
+	s.Wait()
 	vfReach("drained")
 	zzAccounted(s, "drained")
 	zzViews(s, "drained")
+	zzOnWheel(s, "drained")
 	// notifications never name a value that is still resident under that key, and at most one per departed entry value
 	for i, n := range notes {
 		for j := i + 1; j < len(notes); j++ {
